@@ -153,6 +153,10 @@ class Kind:
         pass
     def rt_ok(self, x, got):          # round-trip oracle on Go's decoded value
         return got == [0, self.proj(x)]
+    n_quick = None                    # number of generated values in the quick tier (default: run()'s n_values)
+    dec_every = 4                     # the model decoder is evaluated on every dec_every-th valid encoding
+    def extra_malformed(self, rng, x, r):   # -> [(how, hex)] hand-made invalid inputs added to the malformed stream
+        return []
 
 
 class Dataspace(Kind):
@@ -564,6 +568,171 @@ class OhdrV1(OhdrV2):
         return [1, 0, x["refcount"], name, ms]
 
 
+
+class OhdrContK(OhdrV2):
+    """Object header version 2 with a chain of 0..3 continuation chunks ("OCHK").  The library has no encoder
+    for them: the file image is built here (python), the harness hands it back unchanged, the Coq side checks
+    it against the specification-side encoder build_chain, and core.ReadObjectHeader's result is compared
+    with the model dec_ohdr_c and with the python projection below."""
+    name = "ohdrcont"
+    label = "ohdr_v2_cont"
+    imports = "Model.CodecOhdr Model.CodecOhdrCont"
+    n_quick = 100
+    dec_every = 1
+    CTYPES = [t for t in OhdrV2.TYPES if t != 16]
+
+    def small_msgs(self, rng, nmax, lens):
+        out = []
+        for _ in range(rng.randrange(0, nmax + 1)):
+            t = rng.choice(self.CTYPES)
+            d = rbytes(rng, rng.choice(lens))
+            if t == 12:
+                d = (bytes([3, 0]) + d[2:])[:max(len(d), 2)]
+            out.append(dict(type=t, data=d.hex()))
+        return out
+
+    def gen(self, rng, i):
+        n = [0, 1, 2, 3, 1, 2][i % 6]
+        addr = rng.choice([0, 0, 1, 8, 48, 100])
+        x = dict(flags=rng.choice([0, 0, 0, 8, 64, 128, 200]), pre=rbytes(rng, addr).hex(),
+                 a0=self.small_msgs(rng, 2, [1, 1, 2, 4, 8, 16, 40]), b0=self.small_msgs(rng, 2, [1, 2, 4, 8, 30]), ks=[])
+        for _ in range(n):
+            x["ks"].append(dict(between=rbytes(rng, rng.choice([0, 0, 1, 3, 8])).hex(),
+                                a=self.small_msgs(rng, 2, [1, 2, 4, 8, 16, 60, 300]), b=self.small_msgs(rng, 2, [1, 1, 4, 20]),
+                                gap=rbytes(rng, rng.choice([0, 0, 1, 2, 3])).hex(), ck=rbytes(rng, 4).hex()))
+        x["suf"] = rbytes(rng, rng.choice([1, 2, 8]) if n == 0 or rng.random() < 0.5 else 0).hex()
+        be = rng.random() < 0.3
+        o, l = rng.choice([1, 2, 4, 8, 8]), rng.choice([1, 2, 4, 8, 8])
+        x["_sb"] = dict(v=2, o=o, l=l, be=be, addr=addr)
+        # addresses and sizes must fit the offset / length size
+        while True:
+            img = self.build(x)[0]
+            if len(img) >= 256 ** x["_sb"]["o"]:
+                x["_sb"]["o"] *= 2
+            elif len(img) >= 256 ** x["_sb"]["l"]:
+                x["_sb"]["l"] *= 2
+            else:
+                break
+        x["image"] = img.hex()
+        return x
+
+    @staticmethod
+    def enc_msg(m):
+        d = bytes.fromhex(m["data"])
+        return bytes([m["type"]]) + len(d).to_bytes(2, "little") + b"\0" + d
+
+    def build(self, x, extra=None, tail=b""):
+        """-> (image, [chunk addresses], [chunk sizes], [[type, offset, datahex]] as the reader returns them).
+        extra: function(addresses, sizes, image length) -> messages appended to the last chunk;  tail: bytes
+        put after suf."""
+        sb = x["_sb"]
+        order = "big" if sb["be"] else "little"
+        mod_o, mod_l = 256 ** min(sb["o"], 8), 256 ** min(sb["l"], 8)
+        def contmsg(a, s):
+            return dict(type=16, data=((a % mod_o).to_bytes(sb["o"], order) + (s % mod_l).to_bytes(sb["l"], order)).hex())
+        n = len(x["ks"])
+        lists = None
+        addrs, sizes, total = [0] * (n + 1), [0] * (n + 1), 0
+        for _pass in range(2):       # pass 0 fixes the lengths, pass 1 fills in addresses and sizes
+            lists = []
+            for ci in range(n + 1):
+                c = dict(a=x["a0"], b=x["b0"]) if ci == 0 else x["ks"][ci - 1]
+                ms = list(c["a"])
+                if ci < n:
+                    ms.append(contmsg(addrs[ci + 1], sizes[ci + 1]))
+                ms += c["b"]
+                if ci == n and extra:
+                    ms += extra(addrs, sizes, total, contmsg)
+                lists.append(ms)
+            pos = sb["addr"]
+            for ci in range(n + 1):
+                body = sum(4 + len(m["data"]) // 2 for m in lists[ci])
+                if ci == 0:
+                    addrs[0], sizes[0] = pos, 7 + body
+                else:
+                    k = x["ks"][ci - 1]
+                    addrs[ci] = pos + len(k["between"]) // 2
+                    sizes[ci] = 4 + body + len(k["gap"]) // 2 + 4
+                pos = addrs[ci] + sizes[ci]
+            total = pos + len(x["suf"]) // 2
+        img = bytearray(bytes.fromhex(x["pre"]))
+        out = []
+        for ci in range(n + 1):
+            if ci == 0:
+                img += b"OHDR" + bytes([2, x["flags"], (sizes[0] - 7) % 256])
+                cur = addrs[0] + 7
+            else:
+                img += bytes.fromhex(x["ks"][ci - 1]["between"]) + b"OCHK"
+                cur = addrs[ci] + 4
+            for m in lists[ci]:
+                out.append([m["type"], cur, m["data"]])
+                e = self.enc_msg(m)
+                img += e
+                cur += len(e)
+            if ci > 0:
+                img += bytes.fromhex(x["ks"][ci - 1]["gap"]) + bytes.fromhex(x["ks"][ci - 1]["ck"])
+        img += bytes.fromhex(x["suf"]) + tail
+        return bytes(img), addrs, sizes, out
+
+    def go(self, x):
+        return dict(image=x["image"])
+    def cm(self, ms):
+        return cl("{| hm_type := %d; hm_data := %s |}" % (m["type"], cbytes(m["data"])) for m in ms)
+    def args(self, x):
+        ks = cl("{| k_between := %s; k_a := %s; k_b := %s; k_gap := %s; k_ck := %s |}" % (
+            cbytes(k["between"]), self.cm(k["a"]), self.cm(k["b"]), cbytes(k["gap"]), cbytes(k["ck"])) for k in x["ks"])
+        return x["flags"], self.cm(x["a0"]), self.cm(x["b0"]), ks
+    def enc_expr(self, x):
+        sb = x["_sb"]
+        return "build_chain %d %d %s %s %d %s %s %s %s" % ((sb["o"], sb["l"], csbe(sb), cbytes(x["pre"])) + self.args(x) + (cbytes(x["suf"]),))
+    def encok_expr(self, x):
+        return None
+    def wf_expr(self, x):
+        sb = x["_sb"]
+        return "wf_chain %d %d %d %s %s %s" % ((sb["o"], sb["l"]) + self.args(x))
+    def invalid(self, rng):
+        return []
+    def dec_expr(self, hexs, sb):
+        return "oval val_ohdr' (dec_ohdr_c %d %d %s %s %d)" % (sb["o"], sb["l"], csbe(sb), cbytes(hexs), sb["addr"])
+    def proj(self, x):
+        ms = self.build(x)[3]
+        name, ref = "", None
+        for t, _, dh in ms:
+            d = bytes.fromhex(dh)
+            if t == 13 and len(d) > 1:
+                name = d[1:].hex()
+            if t == 22 and len(d) >= 4 and ref is None:
+                ref = int.from_bytes(d[:4], "big" if x["_sb"]["be"] else "little")
+        return [2, x["flags"], 1 if ref is None else ref, name, ms]
+    def shape(self, x):
+        return "chunks=%d,os=%d,ls=%d,be=%d" % (len(x["ks"]), x["_sb"]["o"], x["_sb"]["l"], x["_sb"]["be"])
+
+    def extra_malformed(self, rng, x, r):
+        """the reader's refusals and the shapes outside the chain grammar: links back to a visited chunk or to
+        the first chunk, sizes below 8, a missing signature, a link beyond the file, an empty chunk of size 8,
+        two links in one chunk (queue order)"""
+        out = []
+        ochk = b"OCHK" + bytes([1, 1, 0, 0, 0x55]) + bytes(4)              # a valid 13-byte chunk put after suf
+        def variant(how, extra, tail=b""):
+            try:
+                out.append((how, self.build(x, extra, tail)[0].hex()))
+            except (OverflowError, ValueError):
+                pass
+        if x["ks"]:
+            variant("cycle", lambda A, S, T, cm: [cm(A[rng.randrange(1, len(A))], 16)])
+        variant("to-first-chunk", lambda A, S, T, cm: [cm(A[0], S[0])])
+        variant("short-size", lambda A, S, T, cm: [cm(T, rng.randrange(0, 8))], ochk)
+        variant("bad-signature", lambda A, S, T, cm: [cm(T + 1, 12)], ochk)
+        variant("beyond-file", lambda A, S, T, cm: [cm(T + rng.choice([10, 11, 13, 1 << 20]), 13)], ochk)
+        variant("extra-chunk", lambda A, S, T, cm: [cm(T, 13)], ochk)
+        variant("empty-chunk", lambda A, S, T, cm: [cm(T, 8)], ochk)
+        variant("oversized-chunk", lambda A, S, T, cm: [cm(T, rng.choice([14, 40, 1 << 16]))], ochk + bytes(rng.randrange(0, 12)))
+        variant("two-links", lambda A, S, T, cm: [cm(T, 13), cm(T + 13, 13)], ochk + ochk)
+        variant("same-twice", lambda A, S, T, cm: [cm(T, 13), cm(T, 13)], ochk)
+        rng.shuffle(out)
+        return out[:4]
+
+
 class LinkK(Kind):
     name = "link"
     imports = "Model.CodecMsg Model.CodecLink"
@@ -855,6 +1024,7 @@ class CompoundTreeK(CompoundK):
     reader does): theorem C11_compound_nested_roundtrip"""
     name = "compoundtree"
     label = "compound_nested"
+    n_quick = 80
 
     def invalid(self, rng):
         return []
@@ -879,6 +1049,7 @@ class CompoundGreedy(CompoundK):
     member: the model's wf_ctype must reject every such value"""
     label = "compound_greedy_member"
     greedy_inside = True
+    n_quick = 80
     def invalid(self, rng):
         return []
     def wf_expr(self, x):
@@ -989,7 +1160,7 @@ class FilterPipeK(Kind):
         return "n=%d" % len(x["filters"])
 
 
-KINDS = [Dataspace(), Layout(), DatatypeK(), DatatypeVlen(), AttributeK(), SuperblockK(), OhdrV2(), OhdrV1(),
+KINDS = [Dataspace(), Layout(), DatatypeK(), DatatypeVlen(), AttributeK(), SuperblockK(), OhdrV2(), OhdrV1(), OhdrContK(),
          LinkK(), Link2K(), LinkInfoK(), AttrInfoK(), SymtabK(), CompoundK(), CompoundTreeK(), CompoundGreedy(), ArrayK(), EnumK(), FilterPipeK()]
 
 # kinds whose encoder/decoder pair is known not to round-trip: id of the KNOWN_FINDINGS entry
@@ -1054,7 +1225,7 @@ def run(ctx):
     for K in KINDS:
         K.label = K.label or K.name
         K.probe(H)
-        vals = [K.gen(rng, i) for i in range(n_values)]
+        vals = [K.gen(rng, i) for i in range(K.n_quick if (quick and K.n_quick) else n_values)]
         inval = K.invalid(rng)
         cases = [dict(kind=K.name, val=K.go(x), sb=x.get("_sb")) for x in vals + inval]
         res = vlib.run_harness(H, "c11", cases)
@@ -1087,7 +1258,7 @@ def run(ctx):
             if K.wf_expr(x):
                 exprs.append(("wf", K.wf_expr(x), (x, r)))
             # model decoder on the Go bytes gives the Go decoder's result
-            if vi % 4 == 0:
+            if vi % K.dec_every == 0:
                 exprs.append(("dec", "val_eqb (%s) %s" % (K.dec_expr(r["enc"], x.get("_sb")), cval(got)), (x, r)))
         for x, r in zip(inval, res[len(vals):]):
             if K.encok_expr(x):
@@ -1113,6 +1284,8 @@ def run(ctx):
                 if K.skip_malformed(hx):
                     skipped_mal += 1
                     continue
+                mal.append((x, how, hx))
+            for how, hx in K.extra_malformed(rng, x, r):
                 mal.append((x, how, hx))
         mres = vlib.run_harness(H, "c11", [dict(kind=K.name, raw=hx, sb=x.get("_sb")) for x, how, hx in mal]) if mal else []
         mclass = {}
